@@ -78,6 +78,7 @@ func runC05(r *core.Run) int {
 	r.Parallel(nPat, func(i int, l *core.Local) {
 		rng := rand.New(rand.NewSource(base + int64(i)*1000003))
 		pc := makePattern(i, rng, [3]int{3, 2, 1}, 10)
+		noteCtx(l, pc)
 		if pc == nil {
 			return
 		}
